@@ -1,5 +1,6 @@
 import TsVerif.C08.Lemmas
 import TsVerif.C08.Acyclic
+import TsVerif.C08.Concurrency
 /-!
 # C08 — Trees are persistent values: copies are isolated and safe across threads
 
@@ -26,7 +27,7 @@ spurious count.
 | editing a copy never alters what another handle observes | `edit_isolated` (every edit, any visited set), `copy_isolated` |
 | every shared node is freed exactly once after the last handle goes away | `heap_empty_after_last_delete` (after any history of copy/edit/re-parse/delete that leaves no live handle, no cell is live), via `acyclic_invariant` (a height function decreasing along child links survives every operation: clones inherit the height, promoted leaves get 0, built nodes 1 + Σ children — Acyclic.lean) and `rc_invariant`; `no_dangling_no_garbage`; freed ids are never reused (`freed_never_reused_*`) |
 | using any copy as the old tree of a re-parse never alters it | `reparse_isolated`, `rc_invariant_reparse` (re-parse as an abstract build with the ownership contract "reuse = retain, everything else is a fresh cell"; which subtrees are reused is not modelled) |
-| concurrent use = sequential use; no reference-count update is lost | `interleaving_eq_sequential_counts`, `no_lost_update_counts`: the only accesses that operations on distinct handles share are atomic count updates (all other writes go to exclusively owned cells: `writes_exclusive` + isolation theorems), and every interleaving of those equals the sequential order; tied syntactically to SEQ_CST atomics; OPEN: the full small-step refinement (`interleaving_eq_sequential` with reads of children/payload interleaved — they are reads of fields no other thread writes), judged by threaded-vs-sequential runs |
+| concurrent use = sequential use; no reference-count update is lost | `interleaving_eq_sequential_counts`, `no_lost_update_counts`: the only accesses that operations on distinct handles share are atomic count updates (all other writes go to exclusively owned cells: `writes_exclusive` + isolation theorems), and every interleaving of those equals the sequential order; tied syntactically to SEQ_CST atomics; `interleaving_eq_sequential` + `accesses_commute` (Concurrency.lean, round 3): small-step accesses `inc / dec / read / write / free`; two accesses of different threads are independent if they concern different cells, or are two increments, or a read against a count update; independent accesses commute (same heap cell by cell, same returned values incl. the count an `atomic_dec` returns), and **every** interleaving of two threads' sequences with independent cross pairs equals "thread A then thread B" in final heap and in everything each thread observes.  Writes and frees only concern exclusively owned cells (`writes_exclusive`, isolation theorems), so their cross pairs are on different cells.  Two `dec`s of the same cell by different threads are the one dependent pair: the heap does not depend on their order (`interleaving_eq_sequential_counts`), only *which* thread reads 0 and frees does.  OPEN: deriving the independence hypothesis for the access sequences of two whole API operations inside Lean (needs the operations themselves in small-step form); judged by threaded-vs-sequential runs |
 -/
 namespace TsVerif.C08
 
